@@ -1369,6 +1369,14 @@ class SpaceManager(SharedSpaceOperations):
 
         for subspace in self._get_subs(space):
             if name in subspace.cells:
+                sub = subspace.cells[name]
+                if sub.is_derived():
+                    # The new cells may precede the current base of
+                    # the derived cells in the MRO of the sub space.
+                    bases = self.get_deriv_bases(sub, defined_only=True)
+                    if bases[0] is cells:
+                        subspace.clear_subs_rootitems()
+                        sub.on_inherit(self, bases)
                 continue
             else:
                 subspace.clear_subs_rootitems()
@@ -1440,9 +1448,11 @@ class SpaceManager(SharedSpaceOperations):
         define = True
         for space in self._get_subs(cells.parent, skip_self=False):
             c = space.cells[cells.name]
-            if (c is not cells and c.is_defined() and
-                    self.get_deriv_bases(c, defined_only=True)[0] is cells):
-                continue   # Skip when c's base is not cells
+            if c is not cells:
+                if c.is_defined():
+                    continue    # Skip cells overriding the base
+                if self.get_deriv_bases(c, defined_only=True)[0] is not cells:
+                    continue    # Skip cells derived from another base
             space.clear_subs_rootitems()
             space.cells[cells.name].on_set_property(
                 flags, define, func, enable_cache
